@@ -51,13 +51,15 @@ def to_md(form) -> str:
     return md_of_sheets(sheets_of(form))
 
 
-def md_of_sheets(sheets) -> str:
+def md_of_sheets(sheets, cols=None) -> str:
+    """cols: optional {sheet name: column list with None for header-less empty columns}"""
     lines = []
     for name, head, rows in sheets:
+        head = (cols or {}).get(name, head)
         lines.append(f"| {name} |")
         lines.append("| | " + " | ".join(md_cell(h) for h in head) + " |")
         for r in rows:
-            lines.append("| | " + " | ".join(md_cell(r.get(h)) for h in head) + " |")
+            lines.append("| | " + " | ".join(md_cell(r.get(h) if h is not None else None) for h in head) + " |")
     return "\n".join(lines) + "\n"
 
 
@@ -65,14 +67,15 @@ def to_csv(form) -> str:
     return csv_of_sheets(sheets_of(form))
 
 
-def csv_of_sheets(sheets) -> str:
+def csv_of_sheets(sheets, cols=None) -> str:
     buf = io.StringIO(newline="")
     w = csv.writer(buf, lineterminator="\n")
     for name, head, rows in sheets:
+        head = (cols or {}).get(name, head)
         w.writerow([name])
-        w.writerow(["", *head])
+        w.writerow(["", *["" if h is None else h for h in head]])
         for r in rows:
-            w.writerow(["", *[("" if r.get(h) is None else r.get(h)) for h in head]])
+            w.writerow(["", *[("" if h is None or r.get(h) is None else r.get(h)) for h in head]])
     return buf.getvalue()
 
 
